@@ -47,13 +47,14 @@ type RealDoc struct {
 }
 
 type MongoCollections struct {
-	Clients     []*schema.ClientDoc
-	Counter     int32 // value of the collection-number counter document; 0 = absent
-	Snapshots   []*schema.SnapshotDoc
-	Datatypes   []*schema.DatatypeDoc
-	Operations  []*schema.OperationDoc
-	Collections []*schema.CollectionDoc
-	Real        map[string][]*RealDoc // user collections: name -> documents
+	Clients      []*schema.ClientDoc
+	Counter      int32 // value of the collection-number counter document; 0 = absent
+	Snapshots    []*schema.SnapshotDoc
+	Datatypes    []*schema.DatatypeDoc
+	Operations   []*schema.OperationDoc
+	Collections  []*schema.CollectionDoc
+	Real         map[string][]*RealDoc // user collections: name -> documents
+	RealVersions []uint64              // observation: versions written to user documents, in order
 
 	Commands  int    // number of repository commands issued so far
 	FailAt    int    // 1-based index of the command the fault hits (0 = never)
@@ -557,6 +558,7 @@ func (its *RepositoryMongo) InsertRealSnapshot(ctx iface.OrdaContext, collection
 		return err
 	}
 	defer done()
+	its.RealVersions = append(its.RealVersions, sseq)
 	docs := its.Real[collectionName]
 	for _, d := range docs {
 		if d.ID == id {
